@@ -541,4 +541,39 @@ func ruleForEachShape(c *Ctx, r *Rule) {
 		}
 	}
 	r.Ob(skipParent && extra == "", name+"|skips-only-parents", cb.Pos(), "every event is passed to the callback except split parents (extra guard: "+extra+")")
+	// the "batch has something to send" flag the worker tests before calling the output must be
+	// the accumulated OR over all appended events of "not a split parent" — the same predicate ForEach uses
+	for _, a := range c.fieldAccesses(pipelinePkg, "Batch", "hasIterableEvents") {
+		if !a.write {
+			continue
+		}
+		nm := c.fnName(a.fn)
+		if k, isK := constBool(a.val); isK {
+			r.Ob(!k, nm+"|flag-const", a.in.Pos(), "the flag is only ever reset to false as a constant (reset)")
+			continue
+		}
+		okOr := false
+		if phi, ok := a.val.(*ssa.Phi); ok && len(phi.Edges) == 2 {
+			var keepsTrue, addsNew bool
+			for i, e := range phi.Edges {
+				if k, isK := constBool(e); isK && k {
+					// the short-circuit edge: taken when the old flag value is true
+					for _, cl := range c.edgeFactsOf(a.fn, phi.Block().Preds[i], phi.Block()) {
+						if len(cl) == 1 && cl[0].pol && isLoadOfField(cl[0].v, pipelinePkg, "Batch", "hasIterableEvents") {
+							keepsTrue = true
+						}
+					}
+				}
+				if u, ok := e.(*ssa.UnOp); ok && u.Op == token.NOT {
+					if call, ok := u.X.(*ssa.Call); ok && call.Call.StaticCallee() != nil && call.Call.StaticCallee().Name() == "IsChildParentKind" {
+						if p, isP := call.Call.Args[0].(*ssa.Parameter); isP && paramIndex(a.fn, p) >= 0 {
+							addsNew = true
+						}
+					}
+				}
+			}
+			okOr = keepsTrue && addsNew
+		}
+		r.Ob(okOr, nm+"|flag-accumulates", a.in.Pos(), "hasIterableEvents = hasIterableEvents || !event.IsChildParentKind(): once a deliverable event is in the batch the flag stays true (otherwise a batch that ends with a split parent is committed without being sent): "+c.path(a.val))
+	}
 }
